@@ -213,7 +213,7 @@ func c11Interesting(ts spec.TypeSpec) bool {
 func drawC11(t *rapid.T) c11Case {
 	var c c11Case
 	leaves := []string{"gcpoint", "gcpoint", "int64", "string", "bytes", "float64", "int16", "time", "nullString", "nullInt", "bool"}
-	o := gen.TypeOpts{MaxDepth: 4, MaxFields: 4, Leaves: leaves}
+	o := gen.TypeOpts{MaxDepth: 4, MaxFields: 4, Leaves: leaves, ShapeBoost: true}
 	c.Enc.Type = gen.StructType(t, o, 1)
 	c.Enc.GoType = c.Enc.Type.GoString()
 	n := gen.UniformRange(t, "nrecords", 1, 4)
